@@ -89,6 +89,10 @@ def plan(tier, seed):
     for i in range(len(VARS)):
         chunks.append({'k': 'pairs', 'first': i, 'creators': ['O', 'B', 'H', 'x'] if tier == 'quick' else CREATORS})
     chunks.append({'k': 'repeat'})
+    # the framing does not depend on whether parser plug-ins are consulted (-P / Config.allow_plugins = False)
+    chunks.append({'k': 'repeat', 'plugins': False})
+    for i in range(len(VARS)):
+        chunks.append({'k': 'pairs', 'first': i, 'creators': ['O', 'B'], 'plugins': False})
     chunks.append({'k': 'repeat', 'optimize': True})                  # the same under python -O (assertions stripped)
     chunks.append({'k': 'sandwich', 'first': 3, 'optimize': True})
     chunks.append({'k': 'cli'})
@@ -108,10 +112,10 @@ def plan(tier, seed):
 _solo_cache = {}
 
 
-def _solo(spec, creator):
-    key = (json.dumps(spec, sort_keys=True), creator)
+def _solo(spec, creator, plugins=True):
+    key = (json.dumps(spec, sort_keys=True), creator, plugins)
     if key not in _solo_cache:
-        r = decode.parse(pelgen.encode_pel({'creator': creator, 'sections': [spec]}))
+        r = decode.parse(pelgen.encode_pel({'creator': creator, 'sections': [spec]}), plugins=plugins)
         if r['kind'] == 'doc':
             keys = list(r['doc'].keys())
             _solo_cache[key] = ('doc', r['doc'][keys[2]] if len(keys) == 3 else None)
@@ -141,7 +145,8 @@ def eval_case(case):
     creator = case.get('creator', 'O')
     p = pelgen.pel_from_spec({'creator': creator, 'sections': secs})
     b = pelgen.encode_pel(p)
-    r = decode.parse(b)
+    plugins = case.get('plugins', True)          # False: the -P / --skip-parser-plugins setting
+    r = decode.parse(b, plugins=plugins)
     out = []
 
     def bad(what, detail):
@@ -162,7 +167,7 @@ def eval_case(case):
         m = pelgen.check_entry(s, doc[k], creator, env)
         if m:
             bad('entry', '%s: %s' % (k, '; '.join(m[:3])))
-        kind, solo = _solo(s, creator)
+        kind, solo = _solo(s, creator, plugins)
         if kind == 'doc' and solo is not None and solo != doc[k]:
             bad('context', '%s differs from the same section decoded alone' % k)
     return out
@@ -191,12 +196,13 @@ def run_chunk(chunk):
     res = ChunkResult()
     k = chunk['k']
     byname = dict(VARS)
+    P = {} if chunk.get('plugins', True) else {'plugins': False}
     if k == 'pairs':
         a = VARS[chunk['first']][1]
         for creator in chunk['creators']:
-            _do(res, {'creator': creator, 'sections': [a]}, nontrivial=False)
+            _do(res, dict({'creator': creator, 'sections': [a]}, **P), nontrivial=False)
             for _, b in VARS:
-                _do(res, {'creator': creator, 'sections': [a, b]})
+                _do(res, dict({'creator': creator, 'sections': [a, b]}, **P))
     elif k == 'creator_bytes':
         # every value of the one-byte creator id, in front of every section variant
         for c in range(chunk['lo'], chunk['hi']):
@@ -219,11 +225,11 @@ def run_chunk(chunk):
     elif k == 'repeat':
         for name, a in VARS:
             for n in (1, 2, 3, 4):
-                _do(res, {'creator': 'O', 'sections': [a] * n}, nontrivial=n > 1)
+                _do(res, dict({'creator': 'O', 'sections': [a] * n}, **P), nontrivial=n > 1)
             # A B A B and A A B : numbering per name, in order of appearance, not per adjacent run
             b = byname['UDhex'] if name != 'UDhex' else byname['MT']
-            _do(res, {'creator': 'O', 'sections': [a, b, a, b]})
-            _do(res, {'creator': 'O', 'sections': [a, a, b, a]})
+            _do(res, dict({'creator': 'O', 'sections': [a, b, a, b]}, **P))
+            _do(res, dict({'creator': 'O', 'sections': [a, a, b, a]}, **P))
     elif k == 'ids':
         # every two-byte section id (named types get their own decoder only if the payload suits them, so the
         # sweep uses the ids that are NOT decoded by a type-specific class; those are covered by the variants)
